@@ -26,7 +26,9 @@ TRUSTED = ['uuid4 handles are unique (modelled as fresh naturals)',
            'build_trigger is a function of (path, line, args, watches, metrics) — the model carries its result as an '
            'opaque tracepoint (path, line, tag)',
            'threading.Lock / Thread / concurrent.futures.Future behave as documented (step executor, gate listener)']
-ASSUMPTIONS = ['a registration whose arguments build_trigger cannot interpret (unknown `stage`) is expected to stay '
+ASSUMPTIONS = ['after-close cases (1 in 11): the handle of a register call that was refused is never used (the caller got an '
+               'exception, not a handle); whether the refusal is visible is judged by C09, not here',
+               'a registration whose arguments build_trigger cannot interpret (unknown `stage`) is expected to stay '
                'inactive and to leave every other tracepoint alone',
                'register / unregister are not called after TaskHandler.flush (submit is refused then, see C09)']
 
@@ -58,6 +60,28 @@ def gen_case(rng, tier):
     return {'kind': 'seq', 'ops': s.ops}
 
 
+def gen_closed(rng):
+    """registrations (several per location) and service updates while open, all applied; then, after the real
+    TaskHandler.flush(), unregister calls (live / already removed / never issued handles, some twice) and late
+    register calls"""
+    s = svcref.Sched(rng)
+    for _ in range(rng.randint(1, 5)):
+        rng.choice([s.register, s.register, s.register, s.update, s.unregister])()
+    s.drain(atomic_only=True)
+    closed = []
+    for _ in range(rng.randint(1, 5)):
+        r = rng.random()
+        if r < 0.7 and s.ref.nreg:
+            # a never-issued handle is far beyond the numbers late (refused) register calls use up
+            closed.append({'op': 'unregister', 'handle': s.ref.nreg + 50 if rng.random() < 0.1
+                           else rng.randrange(s.ref.nreg)})
+        else:
+            d = s.tp('late', 0.1)
+            d['op'] = 'register'
+            closed.append(d)
+    return {'kind': 'closed', 'ops': s.ops, 'closed': closed}
+
+
 def gen(rng, tier):
     for c in svcref.preempt_cases():
         yield c
@@ -66,7 +90,7 @@ def gen(rng, tier):
     k = 0
     while True:
         k += 1
-        yield svcref.gen_hits(rng) if k % 7 == 0 else gen_case(rng, tier)
+        yield svcref.gen_hits(rng) if k % 7 == 0 else gen_closed(rng) if k % 11 == 3 else gen_case(rng, tier)
 
 
 def corpus():
@@ -81,6 +105,10 @@ def corpus():
         {'kind': 'seq', 'ops': [reg('w1'), reg('w2'), reg('w3', 11), {'op': 'unregister', 'handle': 1},
                                 {'op': 'unregister', 'handle': 1}, {'op': 'unregister', 'handle': 0},
                                 ap(4), ap(3), ap(2), ap(1), ap(0)]},
+        # after TaskHandler.flush(): the second of two registrations on one line goes, again (quiet), a late registration
+        {'kind': 'closed', 'ops': [reg('w1'), reg('w2'), ap(0), ap(0)],
+         'closed': [{'op': 'unregister', 'handle': 1}, {'op': 'unregister', 'handle': 1}, reg('late'),
+                    {'op': 'unregister', 'handle': 0}, {'op': 'unregister', 'handle': 7}]},
         # alongside a service configuration on the same line
         {'kind': 'seq', 'ops': [reg('w1'), {'op': 'poll', 'nc': False, 'rt': 1, 'ts': 5, 'hash': 'h1', 'tps': [
             {'path': 'a.py', 'line': 10, 'tag': 's1', 'args': {}}]}, ap(1), ap(0),
@@ -118,6 +146,8 @@ def run_impl(case):
         return svcbench.run_hits(case)
     if case['kind'] == 'preempt':
         return svcbench.run_preempt(case)
+    if case['kind'] == 'closed':
+        return svcbench.run_closed(case)
     return svcbench.run_ops(case['ops'])
 
 
@@ -128,6 +158,8 @@ def oracle(case, obs):
         return svcref.hits_oracle(case, obs)
     if case['kind'] == 'preempt':
         return svcref.preempt_oracle(case, obs)
+    if case['kind'] == 'closed':
+        return oracle_closed(case, obs)
     v = []
     ref = svcref.Reference()
     for n, (op, t) in enumerate(zip(case['ops'], obs['trace'])):
@@ -150,7 +182,50 @@ def oracle(case, obs):
     return v
 
 
+def oracle_closed(case, obs):
+    """after the task handler was closed: a handle still removes exactly its own registration from what the service
+    keeps, a handle that is not (or no longer) registered removes nothing and raises nothing, and neither call touches
+    the service's configuration.  (Whether the refusal is visible is C09's clause.)"""
+    v = []
+    if obs.get('bench_error'):
+        return v
+    ref = svcref.Reference()
+    for op in case['ops']:
+        ref.apply(op)
+    prev = obs.get('at_close') or {}
+    late = 0
+    for n, (op, t) in enumerate(zip(case['closed'], obs['closed_trace'])):
+        what = f'after TaskHandler.flush(), call {n} ({op["op"]} {op.get("handle", op.get("tag", ""))})'
+        if op['op'] == 'unregister' and t.get('custom') is not None and prev.get('custom') is not None:
+            live = op['handle'] in ref.live
+            want = list(prev['custom'])
+            if live:
+                me = ref.live[op['handle']]
+                if me in want:
+                    want.remove(me)
+            else:
+                if 'raised' in t:
+                    v.append(f'{what}: the handle is not registered (any more) and unregister raised {t["raised"]}')
+            if sorted(t['custom']) != sorted(want):
+                v.append(f'{what}: registered in code {sorted(t["custom"])}, expected {sorted(want)} '
+                         f'({"its own registration removed" if live else "nothing removed"})')
+        if prev and t['polled'] != prev.get('polled'):
+            v.append(f'{what} changed the service configuration')
+        if op['op'] == 'register':
+            late += 1
+            ref.nreg += 1            # the handle number is used up; the caller holds no handle
+        else:
+            ref.apply(op)
+        prev = t
+        if len(v) >= 4:
+            break
+    return v
+
+
 def model_request(case, obs):
+    if case['kind'] == 'closed':
+        return {'ops': svcref.driver_ops(case['ops']) + [{'op': 'applyTask', 'i': 0}] * 40,
+                'closed_ops': svcref.driver_ops(case['closed'])}
     if case['kind'] == 'hits':
         return None          # whether an installed action fires is C02/C03's model, not this one
     if case['kind'] == 'preempt':
@@ -159,6 +234,23 @@ def model_request(case, obs):
 
 
 def compare(case, obs, resp):
+    if case['kind'] == 'closed':
+        if 'error' in resp:
+            return ['model error: ' + resp['error']]
+        if obs.get('bench_error'):
+            return ['the bench could not run the case on this implementation: ' + obs['bench_error']]
+        d = []
+        for n, (op, m, i) in enumerate(zip(case['closed'], resp['closed_trace'], obs['closed_trace'])):
+            what = f'after close, call {n} {op["op"]}'
+            if i.get('custom') is not None and sorted(m['custom']) != sorted(i['custom']):
+                d.append(f'{what}: custom model {sorted(m["custom"])} vs implementation {sorted(i["custom"])}')
+            if m['queued'] != i['queued']:
+                d.append(f'{what}: queued model {m["queued"]} vs implementation {i["queued"]}')
+            if svcref.norm_hash(m['hash']) != svcref.norm_hash(i['hash']):
+                d.append(f'{what}: hash model {m["hash"]!r} vs implementation {i["hash"]!r}')
+            if sorted(m['polled']) != sorted(i['polled']):
+                d.append(f'{what}: polled model {sorted(m["polled"])} vs implementation {sorted(i["polled"])}')
+        return d[:4]
     return svcref.compare_traces(case['ops'], obs, resp)
 
 
@@ -176,6 +268,9 @@ def _shared_removals(case):
 
 
 def label(case, obs):
+    if case['kind'] == 'closed':
+        ks = sorted({o['op'] for o in case['closed']})
+        return 'after-close/' + '+'.join(ks)
     if case['kind'] == 'hits':
         forms = {r['form'].get('watches', 'omitted') for r in case['regs']}
         return 'hits/watches-' + '+'.join(sorted(forms))
@@ -192,6 +287,8 @@ def label(case, obs):
 
 
 def nontrivial(case, obs):
+    if case['kind'] == 'closed':
+        return any(o['op'] == 'unregister' for o in case['closed'])
     if outside_statement(case):
         return False
     if case['kind'] == 'hits':
@@ -202,6 +299,11 @@ def nontrivial(case, obs):
 
 
 def shrink(case):
+    if case['kind'] == 'closed':
+        for i in range(len(case['closed']) - 1, -1, -1):
+            if len(case['closed']) > 1:
+                yield dict(case, closed=case['closed'][:i] + case['closed'][i + 1:])
+        return
     if case['kind'] == 'hits':
         for i in range(len(case['regs'])):
             if len(case['regs']) > 1:
